@@ -335,6 +335,28 @@ def run(ctx):
         val = sv_.attrs.get("value")
         r3.check(isinstance(val, Sym) and val.attrs.get("src") == "1 + 1" and val.attrs.get("context") is tq, "nested setvalue:value", "value is the substituted calculation (tuple index 1)", xc.loc(), why_fail=repr(val))
         r3.check("value" not in sg_.attrs, "nested setgeopoint:value", "an empty expression yields no value attribute", xc.loc())
+    # several targets behind one trigger, with and without an expression, in every order: each nested action carries
+    # its own target and exactly its own expression (none when its own is empty)
+    import itertools as _it3
+    nsn = base_q.methods["nest_set_nodes"]
+    targets = [("c1", "1 + 1"), ("c2", ""), ("c3", "now()"), ("c4", None)]
+    for perm in _it3.permutations(targets, 3):
+        CT = NodeVal("input")
+        calls2 = []
+        it = ctx.interp("C10.R3", hooks=hooks(set(), calls2))
+        it.reset([])
+        try:
+            it.call_function(nsn, [tq, sobj, CT, "setvalue", [tuple(x) for x in perm]], {}, None, nsn.node)
+            got = []
+            for k_ in CT.children:
+                ref_ = k_.attrs.get("ref")
+                src_ = ref_.attrs.get("derived_from", ref_).attrs.get("src") if isinstance(ref_, Sym) else ref_
+                v_ = k_.attrs.get("value")
+                got.append((src_, v_.attrs.get("src") if isinstance(v_, Sym) else v_))
+        except Raised as e:
+            got = f"raises {e.exc_name}"
+        want = [("${" + n_ + "}", (e_ if e_ else None)) for n_, e_ in perm]
+        r3.check(got == want, f"nest_set_nodes[{[n_ for n_, _e in perm]}]", "each nested setvalue has its own ref and only its own value", nsn.loc(), why_fail=f"got {got!r}, expected {want!r}")
     # ...and is not ALSO emitted as a bind calculate, whatever the calculation text is (a truth word such as `no`
     # takes the yes/no conversion branch of the bind emitter)
     from ..xmlmodel import SurveyStub, base_hooks
